@@ -957,7 +957,7 @@ theorem syncedTo_spec (H : Hist) {B : Nat} (hB : 1 < B) (t : Nat) :
 
 /-- **reset_resumable**: on a consistent stopped node (`Inv`, `FInv`, empty cache) the reset resumes to the
 uninterrupted node from the database after EVERY complete stage. -/
-theorem reset_resumable_all_stages (H : Hist) {B S : Nat} (hB : 1 < B) (n n' : Node) (hn : Inv H B n) (hf : FInv H n) (hc : n.cache = [])
+theorem reset_resumable_all_stages (H : Hist) {B S : Nat} (hB : 1 < B) (n n' : Node) (hn : Inv H B n) (hb : ∀ i, i ≤ n.height → ∃ y, n.view (Key.exec i) = some (Val.blk y)) (hc : n.cache = [])
     (t : Nat) (bs : List Batch) (hreset : reset H B S n t = .ok (bs, n')) (hbs : bs ≠ []) :
     let b1 := ofWrites [(Key.syncPoint, some (Val.ptr t)), marker stJumpStarted]
     let d1 := applyBatch b1 n.db
@@ -1033,7 +1033,7 @@ theorem reset_resumable_all_stages (H : Hist) {B S : Nat} (hB : 1 < B) (n n' : N
     have := hr.cb; rw [hd1 _ (by simp) (by simp), ← hv, hn.cb] at this; simp at this; exact this.symm
   subst hcur
   have hblk : ∀ i, t < i → i ≤ n.height → ∃ y, applyBatch (ofWrites [(Key.syncPoint, some (Val.ptr t)), marker stJumpStarted]) n.db (Key.exec i) = some (Val.blk y) := by
-    intro i _ h2; rw [hd1 _ (by simp) (by simp), ← hv]; exact ⟨i, hf.exb i h2⟩
+    intro i _ h2; rw [hd1 _ (by simp) (by simp), ← hv]; exact hb i h2
   have hx := fun k hk => stageBlocks_exact hsb hblk k hk
   have i2 : initHeaders B d2 = .ok n.hdrHeight := by
     apply initHeaders_of_inv
